@@ -172,6 +172,9 @@ func (p *Validator) validateBuffer(buf []byte, last bool) error {
 				continue
 			}
 		case numComma:
+			if len(p.stack) == 0 {
+				return p.newError(off, "unexpected comma")
+			}
 			if 0 < len(p.stack) && p.stack[len(p.stack)-1] == '{' {
 				p.mode = keyMap
 			} else {
